@@ -88,6 +88,26 @@ def _check(job):
                                 suffix = ':editdistance-frozen-cost'
             fails.append({'what': f"three views disagree: refined top-level bounds {top}, edited_cost() {ec}, sum over "
                                   f"get_all_edits {fs}", 'class': 'c03-views-disagree' + suffix})
+        # one base, several revisions: the annotated result of a diff is itself a tree and can be diffed again; the views of
+        # the second comparison must agree with each other and the first annotated tree must keep its own cost
+        if fmt == 'json' and not fails:
+            base = C01._build(fmt, a, opt)
+            d1 = base.diff(C01._build(fmt, b, opt))
+            c1 = d1.edited_cost()
+            rev2 = b if isinstance(b, list) else [b]
+            rev2 = rev2 + [a] if not isinstance(a, list) else list(a) + rev2
+            t2 = C01._build(fmt, rev2, opt)
+            d2 = d1.diff(t2)
+            ec2 = d2.edited_cost()
+            e2 = C01._build(fmt, a, opt).edits(C01._build(fmt, rev2, opt))
+            walk.refine(e2)
+            ref2 = C01._build(fmt, a, opt).diff(C01._build(fmt, rev2, opt)).edited_cost()
+            if ec2 != ref2:
+                fails.append({'what': f"re-diffing an annotated tree: (a.diff(b)).diff(c).edited_cost() == {ec2} but a.diff(c).edited_cost() "
+                                      f"== {ref2} (refined edit {e2.bounds()}), c = {rev2!r}", 'class': 'c03-rediff-cost'})
+            if d1.edited_cost() != c1:
+                fails.append({'what': f"a.diff(b).edited_cost() changed from {c1} to {d1.edited_cost()} after the annotated tree was "
+                                      f"diffed against {rev2!r}", 'class': 'c03-rediff-retroactive'})
     except Exception as ex:
         fails.append({'what': f"{type(ex).__name__}: {ex}", 'class': f'c03-exception:{type(ex).__name__}'})
     for f in fails:
